@@ -116,7 +116,9 @@ class RobotsTxtChecker(object):
 
     def _read_content(self, response: Response, original_url_info: URLInfo):
         '''Read response and parse the contents into the pool.'''
-        data = response.body.read(4096)
+        # Read the whole file (up to the 500 KiB that crawlers commonly
+        # honour), not only the first 4 KiB.
+        data = response.body.read(512000)
         url_info = original_url_info
 
         try:
